@@ -663,6 +663,11 @@ def describe_problem(P, perm, form=None):
         int((P['W'] <= 0).sum()), kind, (' x.dtype=' + form) if form else '')
 
 
+def describe_order(perm):
+    perm = list(perm)
+    return 'sorted' if perm == sorted(perm) else ('reversed' if perm == sorted(perm, reverse=True) else 'shuffled')
+
+
 def short_events(events):
     out = []
     for e in events:
@@ -679,7 +684,8 @@ def case_of(P, perm, k=None, ref=None, form='float64'):
     """ref = (caller order, representation) of the reference run of the same data, or None"""
     return {'kind': 'trace', 'problem': {'X': P['X'].tolist(), 'Y': P['Y'].tolist(), 'W': P['W'].tolist(), 'nord': P['nord'],
                                          'kw': P['kw'], 'lower': P['lower'], 'upper': P['upper'], 'maxiter': P['maxiter'],
-                                         'outliers': P['outliers'], 'id': P['id'], 'pixel': 'forms' in P},
+                                         'outliers': P['outliers'], 'id': P['id'], 'pixel': 'forms' in P,
+                                         'holes': P.get('holes', 0), 'ghosts': P.get('ghosts', 0)},
             'perm': list(perm), 'event': k, 'form': form, 'ref_perm': list(ref[0]) if ref else None,
             'ref_form': ref[1] if ref else None}
 
@@ -838,6 +844,7 @@ def run_traces(ctx, bsp):
              make_hole_problem(rng, k) if k % 10 in (3, 7) else
              make_sparse_problem(rng, k) if k % 10 in (1, 6, 9) else make_problem(rng, k, ctx.quick))
         ref = refperm = None
+        left = []                                          # runs of this data set that left the domain: (perm, form, why)
         for j, perm in enumerate(caller_orders(rng, P['X'].size)):
             form = P['forms'][j] if 'forms' in P else 'float64'
             res = run_real(bsp, P, perm, form)
@@ -845,7 +852,7 @@ def run_traces(ctx, bsp):
             stats['forms'][form] = stats['forms'].get(form, 0) + 1
             tr, skip, info = build_trace(P, perm, res, ref)
             if skip:
-                stats['skipped'][skip.split(':')[0]] = stats['skipped'].get(skip.split(':')[0], 0) + 1
+                left.append((perm, form, skip))
                 continue
             if tr is None:
                 ctx.validated()
@@ -859,6 +866,20 @@ def run_traces(ctx, bsp):
                 ctx.sample({'recorded_run': describe_problem(P, perm, form), 'events': short_events(tr['events']),
                             'curve_vs_independent_fit_microsigma': info['cdiff']})
         P.pop('_solver', None)
+        for perm, form, why in left:
+            if refperm is None:
+                # no order of this data set could be judged: the data set itself is outside C10
+                stats['skipped'][why.split(':')[0]] = stats['skipped'].get(why.split(':')[0], 0) + 1
+                continue
+            # the same data in another caller order / representation was fitted with status 0 throughout and judged:
+            # leaving the domain here is itself a dependence on the order (or dtype) of the data
+            ctx.validated()
+            stats['orderdep'] = stats.get('orderdep', 0) + 1
+            if stats['orderdep'] <= MAXREPORT:
+                ctx.violation(dict(case_of(P, perm, None, refperm, form),
+                                   what='order / representation dependence: iterfit [%s] ended otherwise (%s) than the same data in '
+                                        'caller order %s, x.dtype=%s, which was fitted with status 0 throughout' % (
+                                            describe_problem(P, perm, form), why[:120], describe_order(refperm[0]), refperm[1])))
         if len(batch) >= per_batch * 4 or k == nprob - 1:
             if batch:
                 judge_batch(ctx, bsp, batch, 'Trace_IterFit[%d:%d]' % (done, done + len(batch)), stats)
@@ -886,13 +907,21 @@ WNEG = [0.0, -1.0, 0.0, -4.0, 0.0]
 YOF = [30.0, 60.0, 20.0, 50.0, 10.0]      # y of rank 1..5: distinct and not monotone in x
 
 
-def concretise(st):
+# abscissae of ranks 1..n in a replayed behaviour: consecutive integers, or (hole) with a sampling hole that leaves a
+# whole breakpoint segment of the nbkpts=4 knot set empty (iterfit and the bspline constructor run on it; the oracle
+# stands in for the fit, so the geometry cannot change the specified outcome)
+XPLAIN = {n: [float(r) for r in range(1, n + 1)] for n in range(1, 6)}
+XHOLE = {1: [1.0], 2: [1.0, 7.0], 3: [1.0, 2.0, 7.0], 4: [1.0, 2.0, 7.0, 8.0], 5: [1.0, 2.0, 3.0, 9.0, 10.0]}
+
+
+def concretise(st, hole=False):
     """TLC state (finished behaviour) -> arguments of iterfit + the oracle script."""
     p = st['prob']
     n = p['n']
     perm = list(p['perm'])
     cpos = set(p['cpos'])
-    x = np.array([float(perm[c]) for c in range(n)])
+    xof = (XHOLE if hole else XPLAIN)[n]
+    x = np.array([xof[perm[c] - 1] for c in range(n)])
     y = np.array([YOF[perm[c] - 1] for c in range(n)])
     w = np.array([WPOS[perm[c] - 1] if (c + 1) in cpos else WNEG[perm[c] - 1] for c in range(n)])
     script = []
@@ -904,7 +933,8 @@ def concretise(st):
                 z = list(hist[i + 1]['z'])
             script.append({'st': e['st'], 'mask': sorted(e['mask']), 'z': z})
     return {'n': n, 'perm': perm, 'x': x, 'y': y, 'w': w, 'lower': float(p['lower']), 'upper': float(p['upper']),
-            'maxiter': p['maxiter'], 'script': script, 'nrej': sum(e['a'] == 'reject' for e in hist)}
+            'maxiter': p['maxiter'], 'script': script, 'nrej': sum(e['a'] == 'reject' for e in hist),
+            'xof': xof, 'hole': hole}
 
 
 def run_scripted(bsp, c, form='float64'):
@@ -917,7 +947,8 @@ def run_scripted(bsp, c, form='float64'):
         k = len(calls)
         ent = c['script'][k] if k < len(c['script']) else {'st': 0, 'z': None}
         calls.append(k)
-        ranks = np.asarray(xdata, dtype=float).round().astype(int)
+        rk = {v: r + 1 for r, v in enumerate(c['xof'])}
+        ranks = np.array([rk.get(float(v), 0) for v in np.asarray(xdata, dtype=float)], dtype=int)
         z = ent['z'] or [0] * n
         sig = np.array([1.0 / np.sqrt(WPOS[r - 1]) if 1 <= r <= n else 1.0 for r in ranks])
         zz = np.array([float(z[r - 1]) if 1 <= r <= n else 0.0 for r in ranks])
@@ -930,12 +961,12 @@ def run_scripted(bsp, c, form='float64'):
         return (ent['st'], yfit)
 
     rec = Recorder(bsp, fit_impl=oracle_fit)
-    rec.rankof = {(float(r), YOF[r - 1]): r for r in range(1, n + 1)}
+    rec.rankof = {(c['xof'][r - 1], YOF[r - 1]): r for r in range(1, n + 1)}
     rec.wof = {r: WPOS[r - 1] for r in range(1, n + 1)}
     obs = {'exc': None}
     with rec:
         try:
-            sset, outmask = bsp.iterfit(c['x'].astype(form), c['y'].copy(), invvar=c['w'].copy(), nord=2, nbkpts=2,
+            sset, outmask = bsp.iterfit(c['x'].astype(form), c['y'].copy(), invvar=c['w'].copy(), nord=2, nbkpts=4 if c['hole'] else 2,
                                         lower=c['lower'], upper=c['upper'], maxiter=c['maxiter'])
             outmask = np.asarray(outmask)
             obs['outmask'] = [i + 1 for i in range(n) if outmask.shape == (n,) and outmask[i]]
@@ -1032,7 +1063,7 @@ def run_mc(ctx, bsp, cfg, need=(), sample_every=1):
         nd += 1
         if sample_every > 1 and (nd * 2654435761 + ctx.seed) % sample_every:
             continue
-        c = concretise(st)
+        c = concretise(st, hole=(nd // len(FORMS)) % 2 == 1)
         # the abscissae of a behaviour are integral: every behaviour is run in one representation (rotating), every
         # 7th (thorough: 21st) in all of them; TLC's outcome is for the values, whatever the dtype
         form = FORMS[nd % len(FORMS)]
@@ -1064,7 +1095,8 @@ def run_mc(ctx, bsp, cfg, need=(), sample_every=1):
                 ps = plain_state(st)
                 ctx.violation({'what': '%sTLC behaviour replayed on iterfit (x.dtype=%s): %s [%s]' % (
                     '[deviation D-C10-1: loop stops after the first rejection] ' if dev else '', form, bad, describe_state(ps)),
-                    'kind': 'behaviour', 'state': ps, 'mismatch': bad, 'deviation': dev, 'form': form}, finding=dev)
+                    'kind': 'behaviour', 'state': ps, 'mismatch': bad, 'deviation': dev, 'form': form, 'hole': c['hole']},
+                    finding=dev)
     if n != r['distinct']:
         raise core.MachineryError('read %d of %d states from the dump' % (n, r['distinct']))
     if nviol > MAXREPORT:
@@ -1119,9 +1151,11 @@ def run(ctx):
                        'oracle of recorded runs: numpy lstsq on a Cox-de Boor design matrix over the knots read back from the '
                        'returned object; residuals within 1e-6 sigma of a limit count either way; returned curve compared at '
                        '1e-3 sigma (harness-evaluated numeric relation)',
-                       'recorded data: 3 of 5 sets dense (>= 30 points per breakpoint interval, gap free), 2 of 5 sparse / irregular '
-                       '(intervals holding exactly 1, 2 or 3 points next to dense ones, isolated points, everyn 2..4) with every fit '
-                       'still determined; runs in which a fit reports a non-zero '
+                       'recorded data, per 10 sets: 2 dense (>= 30 points per breakpoint interval, gap free), 3 sparse / irregular '
+                       '(intervals holding exactly 1, 2 or 3 points next to dense ones, isolated points, everyn 2..4), 3 integer '
+                       'pixel grids, 2 with sampling holes (1 .. nord-1 consecutive breakpoint segments holding no x value, or only '
+                       'non-positively weighted ones, between occupied segments; nbkpts / bkspace / explicit bkpt / placed); every '
+                       'fit stays determined; runs in which a fit reports a non-zero '
                        'status or raises from maskpoints are outside C10 (C09) and are counted as skipped, not judged',
                        'integral abscissae (pixel indices; the ranks of every replayed TLC behaviour) are handed over as float64 / '
                        'int64 / int32 / int16 / uint8 arrays and the returned curve is also evaluated at integer-typed points: '
@@ -1133,7 +1167,9 @@ def run(ctx):
                        'length-1 x (no breakpoint option can span a zero range; returns the scalar True or raises)',
                        'maxiter = 0: the mask may or may not carry the rejections of the single pass (statement leaves it open)',
                        'fewer positively weighted points than the spline order: outside the statement (pc = "unspec")',
-                       'replayed behaviours use nord=2, nbkpts=2; bspline.fit is the oracle there, djs_reject and iterfit are real',
+                       'replayed behaviours use nord=2 and nbkpts=2 on consecutive integers or nbkpts=4 on abscissae with a hole '
+                       '(an empty breakpoint segment); bspline.fit is the oracle there, so sampling geometry cannot change the '
+                       'specified outcome - defects of the numerical fit show in the recorded direction only',
                        '2-D fits (x2), requiren, oldset, groupbadpix, grow are not exercised']
     import pydl.pydlutils.bspline as bsp
     self_test(ctx)
@@ -1158,7 +1194,7 @@ def replay(ctx, case):
     ctx.nontriv('b')
     if case.get('kind') == 'behaviour':
         st = state_from_plain(case['state'])
-        c = concretise(st)
+        c = concretise(st, hole=bool(case.get('hole')))
         obs = run_scripted(bsp, c, case.get('form') or 'float64')
         bad = compare(st, c, obs)
         ctx.evaluated(1)
@@ -1187,6 +1223,9 @@ def replay(ctx, case):
     print('recorded run:', describe_problem(P, perm, form))
     if skip:
         print('outside the domain of C10 now:', skip)
+        if ref is not None:
+            print('... while the reference order of the same data is fitted with status 0 throughout')
+            ctx.violation(dict(case, what='order / representation dependence: ' + skip))
         return
     if tr is None:
         print('observed:', info['exception'])
